@@ -221,3 +221,16 @@ for _len in (1, 2, 3):
              on_effect={"create_attest_pair": ["args[1] == be_value(value)", "args[0] is PK", "args[2] == self.a and args[3] == self.b"]},
              ensures=["len(calls('create_attest_pair')) == 1"],
              note="multi-byte attribute values are attested as the number their bytes spell, most significant byte first")
+
+
+# exact-match scoring: a bucket in which the prover's answers show MORE than the reference profile allows - any of the four buckets,
+# the "undecodable" bucket 3 included - makes the score zero
+BEA = "ipv8/attestation/wallet/bonehexact/attestation.py"
+contract(f"{BEA}::binary_relativity_match", "binary_relativity_match.any-excess-scores-zero",
+         vars={"e0": RANGE(0, 512), "e1": RANGE(0, 512), "e2": RANGE(0, 512), "e3": RANGE(0, 512),
+               "v0": RANGE(0, 512), "v1": RANGE(0, 512), "v2": RANGE(0, 512), "v3": RANGE(0, 512),
+               "F": EXPR(f"module_global('{BEA}', 'binary_relativity_match')")},
+         call="F({0: e0, 1: e1, 2: e2, 3: e3}, {0: v0, 1: v1, 2: v2, 3: v3})", raises=[],
+         ensures=["not (e0 < v0 or e1 < v1 or e2 < v2 or e3 < v3) or result == 0.0", "0.0 <= result <= 1.0"],
+         covers=["result == 0.0", "result > 0.0"],
+         note="a prover whose answers do not fit the claimed value's profile (e.g. all undecodable) never scores above zero")
